@@ -457,6 +457,7 @@ def make_shims(world):
         reshape=A.reshape,
         transpose=np_transpose,
         moveaxis=A.moveaxis,
+        trace=A.trace,
         swapaxes=A.swapaxes,
         expand_dims=A.expand_dims,
         squeeze=A.squeeze,
